@@ -260,6 +260,9 @@ def main(argv: list[str]) -> int:
             else:
                 st["agree"] += 1
 
+    if mismatches and os.environ.get("VERIF_DEBUG"):
+        write_replay(pid, f"mismatches_{tier}_{seed}", {"mismatches": sorted(mismatches, key=lambda m: len(canon(m["case"])))[:25]})
+
     # 4./5. classify ---------------------------------------------------------------------------
     findings_open, findings_fixed = load_findings(pid)
     known_hits: dict[str, int] = {f["id"]: 0 for f in findings_open if "id" in f}
